@@ -2835,6 +2835,99 @@ def _x64_language_ok(kind, pattern, flags=0):
     return True, ""
 
 
+def _whole_string(kind, pattern, flags=0):
+    """Does a successful re.<kind>(pattern, s) constrain the WHOLE subject string s - does the pattern consume s from
+    its first to its last character (L28)?  Decided on the call kind and the parse tree only; no string is matched.
+    -> (True | False | None, explanation).
+    True needs nothing but the anchors: fullmatch; or the LAST item of the top-level sequence is `\\Z` (every match ends
+    by passing it, at len(s)) and the match starts at 0 (re.match, or a FIRST item `\\A` / `^` without re.MULTILINE).
+    False is only claimed for patterns of the backtracking-only subset (characters, classes, greedy / lazy repeats, plain
+    groups, alternation): there a way the pattern matches w is also a way it matches w + x up to the end anchor, so a
+    missing / weak end anchor (start anchor under re.search) admits the strings L28 lists.  Look-around, conditionals,
+    back references, atomic / possessive constructs, scoped flags or an anchor that is neither first nor last: None."""
+    from re import _constants as C
+    from re import _parser
+
+    if kind == "fullmatch":
+        return True, "re.fullmatch succeeds only when the pattern consumes the whole string"
+    if not isinstance(pattern, str):
+        return None, "pattern is not a str constant"
+    try:
+        tree = _parser.parse(pattern, flags)
+    except (re.error, TypeError, ValueError, RecursionError, OverflowError):
+        return None, "pattern does not parse"
+    multi = bool(tree.state.flags & re.MULTILINE)
+    top = list(tree)
+    repeats = tuple(x for x in (C.MAX_REPEAT, C.MIN_REPEAT) if x is not None)
+    consuming = (C.LITERAL, C.NOT_LITERAL, C.IN, C.ANY)
+
+    def walk(seq):
+        """(number of anchors / zero-width assertions, all items within the backtracking-only subset?) of a sequence"""
+        n, plain = 0, True
+        for op, av in seq:
+            if op is C.AT:
+                n += 1
+            elif op in consuming:
+                pass
+            elif op in repeats:
+                n2, p2 = walk(list(av[2]))
+                n, plain = n + n2, plain and p2
+            elif op is C.SUBPATTERN:
+                n2, p2 = walk(list(av[3]))
+                n, plain = n + n2, plain and p2 and not av[1] and not av[2]
+            elif op is C.BRANCH:
+                for alt in av[1]:
+                    n2, p2 = walk(list(alt))
+                    n, plain = n + n2, plain and p2
+            else:
+                plain = False
+        return n, plain
+
+    def edge(seq, last):
+        """(strength of the anchoring at the end (`last`) / start of the sequence, anchors relied on): "string" the very
+        end / start of the subject, "newline" `$`: the end or just before one final newline, "line" any line end / start,
+        "none" the sequence ends / starts with a character position, "unknown" anything else."""
+        if not seq:
+            return "none", 0
+        op, av = seq[-1 if last else 0]
+        if op is C.AT:
+            if av is (C.AT_END_STRING if last else C.AT_BEGINNING_STRING):
+                return "string", 1
+            if av is (C.AT_END if last else C.AT_BEGINNING):
+                return ("line" if multi else "newline" if last else "string"), 1
+            return "unknown", 0
+        if op in consuming:
+            return "none", 0
+        if op in repeats:
+            return ("none" if walk(list(av[2])) == (0, True) else "unknown"), 0
+        if op is C.SUBPATTERN and not av[1] and not av[2]:
+            return edge(list(av[3]), last)
+        if op is C.BRANCH:
+            got = [edge(list(alt), last) for alt in av[1]]
+            kinds = {k for k, _n in got}
+            return (kinds.pop() if len(kinds) == 1 else "unknown"), sum(n for _k, n in got)
+        return "unknown", 0
+
+    end, n_end = edge(top, True)
+    start, n_start = edge(top, False)
+    if kind == "match":  # the match starts at position 0; a leading `^` / `\A` is redundant there (true at 0 in every mode)
+        start, n_start = "string", (n_start if start in ("string", "line") else 0)
+    if end == "string" and start == "string":
+        return True, ("re.match starts at the first character" if kind == "match" else "the pattern is anchored at the start of the string") + " and the pattern's last item is `\\Z`, the end of the string"
+    n_all, plain = walk(top)
+    if not plain or n_all != n_end + n_start or "unknown" in (start, end):
+        return None, "anchoring outside the modelled forms (look-around, conditional, back reference, atomic / possessive construct, scoped flags, or an anchor that is not the first / last item of the pattern)"
+    if start == "none":
+        return False, "re.search with a pattern that is not anchored at the start: any text in front of a match is accepted"
+    if start == "line":
+        return False, "with re.MULTILINE `^` also matches after every newline: any text + '\\n' in front of a match is accepted"
+    if end == "newline":
+        return False, "`$` also matches just before a final newline: whenever w is accepted, so is w + '\\n' (5 + 1 characters; the newline counts towards checksum8)"
+    if end == "line":
+        return False, "with re.MULTILINE `$` matches before every newline: whenever w is accepted, so is w + '\\n' + any text"
+    return False, "the pattern has no end anchor: whenever w is accepted, so is w + any text"
+
+
 def _re_flags(node):
     """Constant value of a `flags` argument (re.I | re.A ...), 0 when absent, None when not constant."""
     if node is None:
@@ -2996,6 +3089,7 @@ def r3(ctx):
         # atoms: the checksum of the URI and (x64) the regex verdict
         binds = {}
         rx_ok, rx_why, rx_seen = True, "", 0
+        whole, foreign = {}, {}  # the whole-URI verdict per located regex test; regex-like tests of the URI whose pattern is out of sight
         for s in rets:
             for e in [a for a, _p in s.conds] + [s.end[1]]:
                 for c in _calls_to(ctx, g, e, "utils.checksum8"):
@@ -3003,9 +3097,18 @@ def r3(ctx):
                         binds[src(c)] = "$c8"
                     else:
                         bad.append(f"checksum8 applied to `{src(c.args[0]) if c.args else ''}` instead of the URI")
-                for c, kind, pat, fl in _regex_calls(ctx, g, e, u):
+                located = _regex_calls(ctx, g, e, u)
+                for n in ast.walk(e):
+                    if (isinstance(n, ast.Call) and isinstance(n.func, ast.Attribute) and n.func.attr in ("match", "fullmatch", "search") and all(n is not c for c, _k2, _p2, _f2 in located)
+                            and any(_mentions(x, u) for x in list(n.args) + [kw.value for kw in n.keywords])):
+                        foreign[src(n)] = n
+                for c, kind, pat, fl in located:
                     binds[src(c)] = "$rx"
                     rx_seen += 1
+                    if kind == "fullmatch" or (pat is not None and fl is not None):
+                        whole[(kind, pat, fl)] = _whole_string(kind, pat, fl or 0)
+                    else:
+                        whole[(kind, pat, fl)] = (None, "regular expression / flags not constant")
                     if pat is None or fl is None:
                         undec.append("regular expression / flags not constant")
                         continue
@@ -3090,6 +3193,31 @@ def r3(ctx):
             ctx.undecided("R3", "TABLE", g, text, "; ".join(dict.fromkeys(undec))[:400])
         else:
             ctx.ob("R3", "TABLE", g, text, True, f"true exactly when checksum8(uri) == {const}" + (" and the URI is '/' + four ASCII alphanumerics (pattern parse tree: anchors, five positions, class table)" if need_rx and rx_seen else " and the URI is '/' + four ASCII alphanumerics (string predicates)" if need_rx else "") + " (interval sets over the checksum range [0, 255])")
+        if not need_rx:
+            continue
+        # ---- "exactly when ... four alphanumerics after the slash", over ALL URI strings: the shape test has to constrain the
+        # whole string, not a prefix / a line / all but a final newline of it (L28; call kind + anchors of the parse tree)
+        WHOLE = "shape test covers the whole URI"
+
+        def shown(key):
+            kind, pat, _fl = key
+            return f"re.{kind}({pat!r})" if pat is not None else f"<pattern>.{kind}(..)"
+
+        wrong = [(k, v) for k, v in whole.items() if v[0] is False]
+        open_ = [(k, v) for k, v in whole.items() if v[0] is None]
+        if wrong:
+            ctx.ob("R3", "TABLE", g, WHOLE, False, "; ".join(f"{shown(k)}: {v[1]}" for k, v in wrong)[:400] + " - such a URI is not '/' + four alphanumerics, yet it is classified as an x64 stager whenever its checksum8 is 93 (L28)")
+        elif open_ or foreign:
+            why = [f"{shown(k)}: {v[1]}" for k, v in open_] + [f"`{t[:60]}`: a regex test of the URI the rule cannot resolve (pattern object that is not a module-level constant re.compile(..), or a transformed subject)" for t in foreign]
+            ctx.undecided("R3", "TABLE", g, WHOLE, "; ".join(why)[:400])
+        elif whole:
+            ctx.ob("R3", "TABLE", g, WHOLE, True, "; ".join(f"{shown(k)}: {v[1]}" for k, v in whole.items())[:400])
+        else:
+            shapes = [shape for _cs, _rx, shape in regions]
+            if shapes and all({"len5", "slash", "alnum"} <= sh for sh in shapes):
+                ctx.ob("R3", "TABLE", g, WHOLE, True, "no regular expression: `len(uri) == 5` fixes the number of positions, startswith('/') constrains the first and isalnum() of uri[1:] every other one (whether isalnum() is narrow enough is judged by the obligation above, L15)")
+            else:
+                ctx.undecided("R3", "TABLE", g, WHOLE, "no regular expression test of the URI found and the string predicates on the classifier's true-alternatives are not the recognised len(uri) == 5 / startswith('/') / uri[1:].isalnum() combination")
 
 
 # ===================================================================================================== R4 random_stager_uri
@@ -3379,7 +3507,88 @@ def r5(ctx):
                 return pol
         return None
 
+    # ---- object / module state that can hold the result of an (earlier) extraction: `self.A` (or a module-level container)
+    # into which this function stores a value computed from a BeaconConfig.from_* call, or into which another method of
+    # the class stores what this function returned (device 3: def-use on the path terms, writes located by role)
+    self_name = ps[0] if len(ps) > 1 else None
+
+    def state_root(e, env=None):
+        """`self.A` / module-level NAME behind subscripts, method calls (`.get(k)`, `.pop(k)`) and further attributes of
+        a term; None when the term is not a read of object / module state."""
+        for _ in range(32):
+            if isinstance(e, ast.Subscript):
+                e = e.value
+            elif isinstance(e, ast.Call) and isinstance(e.func, ast.Attribute):
+                e = e.func.value
+            elif isinstance(e, ast.Call) and dotted(e.func) in ("$mut", "$append", "$extend") and e.args:
+                e = e.args[0]
+            elif isinstance(e, ast.Attribute):
+                d = dotted(e)
+                if d and self_name and d.startswith(self_name + "."):
+                    return ".".join(d.split(".")[:2])
+                e = e.value
+            elif isinstance(e, ast.Name):
+                if env is not None and e.id in env and env[e.id] is not e:
+                    e, env = env[e.id], None  # a local alias of the container (its term at the end of the path)
+                    continue
+                return e.id if e.id in f.module.consts and e.id not in ps else None
+            else:
+                return None
+        return None
+
+    def carries(v):
+        return v is not None and bool(sinks(v))
+
+    holds = {}  # state root -> how an extraction result gets there
+    for s in states:
+        for stm, v in s.events:
+            if isinstance(stm, (ast.Assign, ast.AnnAssign, ast.AugAssign)):
+                pairs = []
+
+                def spread(t, val):
+                    if isinstance(t, (ast.Tuple, ast.List)):
+                        same = isinstance(val, (ast.Tuple, ast.List)) and len(val.elts) == len(t.elts) and not any(isinstance(x, ast.Starred) for x in list(t.elts) + list(val.elts))
+                        for i, x in enumerate(t.elts):
+                            spread(x, val.elts[i] if same else val)
+                    else:
+                        pairs.append((t, val))
+
+                for t in (stm.targets if isinstance(stm, ast.Assign) else [stm.target]):
+                    spread(t, v)
+                for t, val in pairs:
+                    if isinstance(t, (ast.Attribute, ast.Subscript)) and carries(val):
+                        r = state_root(t, s.env)
+                        if r:
+                            holds.setdefault(r, f"`{src(t)[:50]} = ..` stores the result of `{src(sinks(val)[0])[:50]}`")
+            elif isinstance(stm, ast.Expr) and isinstance(v, ast.Call) and isinstance(v.func, ast.Attribute):
+                if any(carries(x) for x in list(v.args) + [kw.value for kw in v.keywords]):
+                    r = state_root(v.func.value, s.env)
+                    if r:
+                        holds.setdefault(r, f"`{src(stm.value)[:60]}` stores the result of an extraction")
+    if self_name and f.cls:
+        me = f"{self_name}.{f.node.name}"
+        for g in ctx.repo.methods(f"{f.module.name}.{f.cls}"):
+            if g.node is f.node or not isinstance(g.node, (ast.FunctionDef, ast.AsyncFunctionDef)):
+                continue
+            gps = params(g.node)
+            if not gps:
+                continue
+            got = {}  # locals of g bound to this function's result
+            for n in ast.walk(g.node):
+                if isinstance(n, ast.Assign) and isinstance(n.value, ast.Call) and dotted(n.value.func) == f"{gps[0]}.{f.node.name}":
+                    got.update((x, True) for t in n.targets for x in _target_names(t))
+            for n in ast.walk(g.node):
+                if isinstance(n, ast.Assign):
+                    val = n.value
+                    from_me = (isinstance(val, ast.Call) and dotted(val.func) == f"{gps[0]}.{f.node.name}") or (isinstance(val, ast.Name) and val.id in got)
+                    if from_me:
+                        for t in n.targets:
+                            d = dotted(t) if isinstance(t, ast.Attribute) else None
+                            if d and d.startswith(gps[0] + ".") and d.count(".") == 1:
+                                holds.setdefault(f"{self_name}.{d.split('.')[1]}", f"{g.qualname} stores what {me}() returned in `{d}`")
+
     bad, undec, exits = [], [], []
+    stale, stale_undec, none_paths = [], [], 0
     nsink = 0
     args = []
     for s in states:
@@ -3418,6 +3627,22 @@ def r5(ctx):
             continue
         if negative and s.end[0] == "return" and not calls:
             exits.append(s)
+        if not calls and not positive and s.end[0] in ("return", "fall"):
+            # a path that a response with a known request takes without its URI having passed a classifier: what it hands
+            # back must not be the result of an extraction (made for another response)
+            v = s.end[1]
+            if v is None or (isinstance(v, ast.Constant) and v.value is None):
+                none_paths += 1
+            elif not negative:  # (after two failed classifier tests the EXIT obligation below judges the value)
+                r = state_root(v)
+                reads = [a for a, pol in s.conds if request_test(a, pol) is None and _has_attr_chain(a, req)] + ([v] if _has_attr_chain(v, req) else [])
+                where = f"path {_cond_text(s.conds)[:4]} returns `{src(v)[:70]}`"
+                if r in holds and not reads:
+                    stale.append(f"{where}; {holds[r]}; neither the path conditions nor the returned term read the request URI, so a response with a known non-stager request is handed the beacon found for another response")
+                elif r in holds:
+                    stale_undec.append(f"{where}, state that holds extraction results ({holds[r]}), under the condition `{src(reads[0])[:60]}` on the request, which the rule does not interpret")
+                else:
+                    stale_undec.append(f"{where}, which the rule cannot relate to an extraction result or to None")
         if not calls:
             continue
         nsink += 1
@@ -3441,6 +3666,13 @@ def r5(ctx):
         ctx.undecided("R5", "DOM", f, TEXT, undec[0][:300])
     else:
         ctx.ob("R5", "DOM", f, TEXT, True, f"every path with a known request that reaches the extraction ({nsink} path(s)) carries a positive is_stager_x86/x64 test of the request URI")
+    STALE = "no stored extraction result is returned around the stager gate"
+    if stale:
+        ctx.ob("R5", "TAINT", f, STALE, False, stale[0][:420])
+    elif stale_undec:
+        ctx.undecided("R5", "TAINT", f, STALE, stale_undec[0][:400])
+    else:
+        ctx.ob("R5", "TAINT", f, STALE, True, f"every returning path that a response with a known request can take without a positive stager test of its URI ({none_paths} path(s)) returns None" + (f"; state that holds extraction results: {sorted(holds)}" if holds else ""))
     if exits:
         wrong = [s for s in exits if not (s.end[1] is None or (isinstance(s.end[1], ast.Constant) and s.end[1].value is None))]
         ctx.ob("R5", "EXIT", f, "non-stager -> None", not wrong, "a known non-stager request yields None" if not wrong else f"a known non-stager request yields `{src(wrong[0].end[1])[:80]}`")
